@@ -31,6 +31,8 @@ func runC12(c *Check, tier string) {
 	// the platform filter reads the configuration through accessors: they must not cache stale answers
 	ruleDerivedFieldFresh(c, "R12h", "config", "selection", "label")
 	ruleMemoKeyComplete(c, "R12i", "config", "selection", "label")
+	// every package file that is loaded takes part in the selection: none is lost in the loader's table
+	shareRule(c, "R12j", "the loader's shared package table loses no package: lookup and insert are one critical section (same obligation as R16l)", 1, "R16l", func(sub *Check) { ruleTableInsertAtomic(sub, "R16l") }, nil)
 }
 
 // R12f: the platform predicate is exact membership.
